@@ -35,7 +35,7 @@ def describe(tier):
         "bounds": {"time lengths": b["Ls"], "rates": b["rates"], "nchan": b["nchans"], "cut points": "every multiset of <= 3 in [0, L]",
                    "missing-start patterns": "all 2^pieces", "groupings": "all 2^(k-1) contiguous groupings + left/right folds",
                    "range sequences": f"all sequences of 2 and 3 ranges on length {b['seqL']} (time), 2-4 non-empty ranges (freq)"},
-        "alphabet": ["concatenate(pieces, axis=0|'time'|1|'freq')", "nested concatenate", "perturbed piece: sample_rate, chan_bw, "
+        "alphabet": ["concatenate(pieces, axis=0|'time'|-ndim|np.int64(0) / 1|'freq'|1-ndim|np.int64(1))", "nested concatenate", "perturbed piece: sample_rate, chan_bw, "
                      "center_freq, start_time, class", "empty list", "non-Signal"],
         "rule": "state = (class, rate, L/nchan, align, ranges, start mask, grouping); one real concatenate per state; valid "
                 "sequences must reproduce data bit-exactly, start time (exact rational, (pieces+1) ulp_T) and labels; sequences "
@@ -204,8 +204,8 @@ def split_time_case(case, res):
         ranges = [(edges[i], edges[i + 1]) for i in range(len(edges) - 1)]
         k = len(ranges)
         for mask in itertools.product([True, False], repeat=k):
-            axis = [0, "time"][(sum(mask) + len(cuts)) % 2]
-            sub = {"cuts": list(cuts), "start_kept": list(mask), "axis": axis}
+            axis = [0, "time", -z.ndim, np.int64(0)][(sum(mask) + len(cuts)) % 4]    # all spell the time axis
+            sub = {"cuts": list(cuts), "start_kept": list(mask), "axis": repr(axis)}
             res.state((cls, case["rate"], L, cuts, mask))
             out = run_time_sequence(res, case, z, ranges, mask, axis, sub, "split/join time")
             if any(b == a for a, b in ranges):
@@ -284,8 +284,8 @@ def freq_case(case, res):
                 continue
             contiguous = all(seq[i][1] == seq[i + 1][0] for i in range(k - 1))
             pieces = [fpieces[r] for r in seq]
-            axis = [1, "freq"][(k + seq[0][0]) % 2]
-            sub = {"ranges": [list(r) for r in seq], "axis": axis}
+            axis = [1, "freq", 1 - z.ndim, np.int64(1)][(k + seq[0][0] + seq[-1][1]) % 4]   # all spell the channel axis
+            sub = {"ranges": [list(r) for r in seq], "axis": repr(axis)}
             res.state((cls, n, align, seq))
             try:
                 out = pb.concatenate(pieces, axis=axis)
@@ -342,15 +342,25 @@ def perturb_case(case, res):
         dt = 1 / z.sample_rate
 
         def expect_reject(pieces, what, axis=0):
-            res.transitions += 1
-            res.traces += 1
-            res.state((cls, rate, what))
-            try:
-                out = pb.concatenate(pieces, axis=axis)
-            except Exception:
-                res.hits["perturbed piece rejected"] += 1
-                return
-            res.violation(f"perturb|{what} accepted", f"{what}: joined into {out!r}", case, {"what": what, "rate": rate})
+            # every spelling of the same axis must refuse
+            nd = pieces[0].ndim if len(pieces) else 1
+            spell = {0: [0, "time", -nd, np.int64(0)], "time": [0, "time", -nd], 1: [1, "freq", 1 - nd, np.int64(1)],
+                     "freq": ["freq", 1, 1 - nd]}.get(axis, [axis])
+            if not len(pieces) or (axis == "freq" and not isinstance(pieces[0], pb.RadioSignal)):
+                spell = [axis]
+            for ax in spell:
+                res.transitions += 1
+                res.traces += 1
+                res.state((cls, rate, what, repr(ax)))
+                try:
+                    out = pb.concatenate(pieces, axis=ax)
+                except Exception:
+                    res.hits["perturbed piece rejected"] += 1
+                    if not isinstance(ax, (str,)) and ax < 0:
+                        res.hits["negative axis spelling"] += 1
+                    continue
+                res.violation(f"perturb|{what} accepted", f"{what} (axis={ax!r}): joined into {out!r}", case,
+                              {"what": what, "rate": rate, "axis": repr(ax)})
 
         for k in (1, -1, 2, -2, 0.5, -0.5):
             expect_reject([a, type(b_).like(b_, start_time=b_.start_time + k * dt)], f"second piece shifted by {k} samples")
@@ -456,7 +466,7 @@ def main(argv=None):
         PID, gen_cases=gen_cases, check_case=check_case, describe=describe,
         required_hits=["empty piece", "piece without start time", "leading start-less piece (start extrapolated backwards)",
                        "grouping", "non-contiguous in time rejected", "non-contiguous in frequency rejected",
-                       "joined along frequency", "other-axis mismatch rejected", "perturbed piece rejected", "one-sample error far from the start", "unit spellings"],
+                       "joined along frequency", "other-axis mismatch rejected", "perturbed piece rejected", "one-sample error far from the start", "unit spellings", "negative axis spelling"],
         assumptions=["a sequence must be rejected only if two NON-EMPTY start-bearing pieces are inconsistent by >= 1 sample "
                      "(mis-stamped empty pieces are unconstrained); rates above ~10 GHz are outside the quantifier "
                      "(Time.isclose window 40 ps)", "any exception class counts as rejection"],
